@@ -48,6 +48,18 @@ func runC02(c *run.Ctx) {
 		withArgs := i%3 == 0 // argument-bearing tuples are compared among the strategies that receive arguments
 		ec := newExecCaseG(r, gen.SchemaOpts{Args: withArgs, Mutation: true},
 			gen.DocOpts{Frags: true, Dirs: true, Vars: true, Aliases: true, Mutation: true, Depth: 2 + r.Intn(3)}, gen.GraphOpts{TypedNil: 3})
+		if i%12 == 5 {
+			// a long chain that passes through a list of objects at every level: []interface{} for the interface and any
+			// strategies, a typed Go slice under reflection - the depth budget must be spent alike by all of them
+			depth := 30 + r.Intn(17)
+			var sels []model.Sel = []model.Sel{&model.Field{Name: "hello"}}
+			for d := 0; d < depth; d++ {
+				sels = []model.Sel{&model.Field{Name: "selfList", Sels: sels}, &model.Field{Alias: "k", Name: "hello"}}
+			}
+			ec.DC = &gen.DocCase{Doc: &model.Doc{Ops: []*model.Op{{Kind: "query", Name: "Deep", Sels: sels}}}, Vars: map[string]interface{}{}, Feats: map[string]bool{"nested": true, "alias": true, "list-of-objects": true, "__typename": true}, OpName: "Deep"}
+			ec.Text = ec.DC.Doc.Print(model.LayoutN(ec.Layout))
+			c.Bucket("doc_features", "deep-chain-through-lists")
+		}
 		kinds := back.AllKinds
 		if withArgs || !back.ReflectFriendly(ec.S) {
 			kinds = []string{"iface", "any", "mixed-any"}
